@@ -34,8 +34,9 @@ Proof. exact landscape_shape_partial. Qed.
 
 (** the hypothesis "f is a function of the task" of C10_schedule_independent, for the task bodies of the alignment models:
     syntactically, none of them changes its arguments, the cached template/mask or the shared model (generated fact) *)
-Theorem C10_tasks_are_functions : tasks_do_not_mutate_shared_state = true.
-Proof. reflexivity. Qed.
+Theorem C10_tasks_are_functions : tasks_do_not_mutate_shared_state = true /\ models_hold_no_per_call_state = true /\
+  concrete_models_hold_no_state = true /\ loaders_hold_no_derived_state = true /\ batch_holds_no_derived_state = true.
+Proof. repeat split; reflexivity. Qed.
 
 Print Assumptions C10_cache_no_error.
 Print Assumptions C10_cache_value.
